@@ -588,10 +588,20 @@ func transientTaint(v ssa.Value) (bool, string) {
 }
 
 type taintCfg struct {
-	sanitizer     func(name string) bool // call results that are clean whatever the arguments
-	convertCopies bool                   // string <-> []byte conversions make a copy (true for aliasing, irrelevant for content)
+	sanitizer     func(name string) bool                       // call results that are clean whatever the arguments
+	convertCopies bool                                         // string <-> []byte conversions make a copy (true for aliasing, irrelevant for content)
 	callersOf     func(fn *ssa.Function) []ssa.CallInstruction // when set: a parameter is tainted if some caller passes a tainted argument
 	paramDepth    int
+	// sourceFn, when set, replaces the built-in record-backed sources: it decides for a static call whether its result is a
+	// source (and names it). mode keys the summary cache of such a configuration.
+	sourceFn func(call *ssa.Call, name string) (string, bool)
+	mode     string
+	// identity: calls whose result has the content of their arguments (copies): analysed as their arguments, not by body.
+	// Needed for content questions (is it valid UTF-8?), where a deep copy neither cleans nor taints.
+	identity func(name string) bool
+	// cutBreaks: a byte-offset re-slice of a string undoes a content sanitizer applied before it (it may split a multi-byte
+	// sequence): the slice is tainted whenever its operand derives from a source at all
+	cutBreaks bool
 }
 
 // taintWalk: does v derive from bytes of a log record (FieldSetExtractor.Extract, LogFieldLocator.Get, StringFromBytes,
@@ -655,10 +665,25 @@ func taintWalk(v ssa.Value, cfg taintCfg) (bool, string) {
 			if cfg.sanitizer != nil && cfg.sanitizer(n) {
 				return false
 			}
-			switch n {
-			case "base.(*FieldSetExtractor).Extract", "util.StringFromBytes", "base.(LogFieldLocator).Get":
-				src = n
-				return true
+			if cfg.identity != nil && cfg.identity(n) {
+				for _, a := range x.Common().Args {
+					if walk(a, d+1) {
+						return true
+					}
+				}
+				return false
+			}
+			if cfg.sourceFn != nil {
+				if s2, ok := cfg.sourceFn(x, n); ok {
+					src = s2
+					return true
+				}
+			} else {
+				switch n {
+				case "base.(*FieldSetExtractor).Extract", "util.StringFromBytes", "base.(LogFieldLocator).Get":
+					src = n
+					return true
+				}
 			}
 			args := x.Common().Args
 			if strings.HasPrefix(n, "strings.") || strings.HasPrefix(n, "bytes.") || strings.HasPrefix(n, "golang.org/x/exp/slices.") || strings.HasPrefix(n, "slices.") {
@@ -688,12 +713,23 @@ func taintWalk(v ssa.Value, cfg taintCfg) (bool, string) {
 			if cfg.convertCopies {
 				return false // string([]byte) and []byte(string) copy
 			}
+		case *ssa.Slice:
+			if cfg.cutBreaks && isStringType(x.Type()) && (x.Low != nil || x.High != nil) {
+				sub := cfg
+				sub.sanitizer = nil
+				sub.mode = cfg.mode + "+raw"
+				if t, s2 := taintWalk(x.X, sub); t {
+					src = s2 + ", re-sliced by byte offset after any sanitising"
+					return true
+				}
+				return false
+			}
 		case *ssa.BinOp:
-			if x.Op == token.ADD {
+			if x.Op == token.ADD && !cfg.cutBreaks {
 				return false // concatenation allocates
 			}
 		case *ssa.Parameter:
-			if strings.HasPrefix(x.Name(), "temp") {
+			if cfg.sourceFn == nil && strings.HasPrefix(x.Name(), "temp") {
 				src = "parameter " + x.Name() + " (transient by contract)"
 				return true
 			}
@@ -731,7 +767,7 @@ func taintWalk(v ssa.Value, cfg taintCfg) (bool, string) {
 		case *ssa.MakeSlice:
 			return elemStores(x, d)
 		case *ssa.UnOp:
-			if fa, ok := strip(x.X).(*ssa.FieldAddr); ok && fieldName(fa.X.Type(), fa.Field) == "base.LogRecord.Fields" {
+			if fa, ok := strip(x.X).(*ssa.FieldAddr); ok && cfg.sourceFn == nil && fieldName(fa.X.Type(), fa.Field) == "base.LogRecord.Fields" {
 				src = "LogRecord.Fields"
 				return true
 			}
@@ -761,11 +797,17 @@ func taintWalk(v ssa.Value, cfg taintCfg) (bool, string) {
 	return walk(v, 0), src
 }
 
-var returnsSourceCache = map[*ssa.Function]int{} // 0 unknown, 1 yes, 2 no, 3 in progress
+type retSrcKey struct {
+	f    *ssa.Function
+	mode string
+}
+
+var returnsSourceCache = map[retSrcKey]int{} // 0 unknown, 1 yes, 2 no, 3 in progress
 
 // returnsSource: some string / byte-slice result of f derives from a record-backed source inside f
 func returnsSource(f *ssa.Function, cfg taintCfg, depth int) bool {
-	switch returnsSourceCache[f] {
+	key := retSrcKey{f, cfg.mode}
+	switch returnsSourceCache[key] {
 	case 1:
 		return true
 	case 2, 3:
@@ -774,7 +816,7 @@ func returnsSource(f *ssa.Function, cfg taintCfg, depth int) bool {
 	if depth > 4 {
 		return false
 	}
-	returnsSourceCache[f] = 3
+	returnsSourceCache[key] = 3
 	found := false
 	eachInstr(f, func(in ssa.Instruction) {
 		r, ok := in.(*ssa.Return)
@@ -792,9 +834,9 @@ func returnsSource(f *ssa.Function, cfg taintCfg, depth int) bool {
 		}
 	})
 	if found {
-		returnsSourceCache[f] = 1
+		returnsSourceCache[key] = 1
 	} else {
-		returnsSourceCache[f] = 2
+		returnsSourceCache[key] = 2
 	}
 	return found
 }
@@ -811,17 +853,29 @@ func returnsParam(f *ssa.Function, prm *ssa.Parameter, cfg taintCfg, depth int) 
 			return
 		}
 		for _, res := range r.Results {
-			seen := map[ssa.Value]bool{}
+			type vk struct {
+				v   ssa.Value
+				raw bool
+			}
+			seen := map[vk]bool{}
+			raw := false // set once a byte-offset cut was passed (cutBreaks): sanitizers before the cut no longer count
 			var w func(v ssa.Value, d int) bool
 			w = func(v ssa.Value, d int) bool {
-				if v == nil || seen[v] || d > 25 {
+				if v == nil || seen[vk{v, raw}] || d > 25 {
 					return false
 				}
-				seen[v] = true
+				seen[vk{v, raw}] = true
 				if v == ssa.Value(prm) {
 					return true
 				}
 				switch x := v.(type) {
+				case *ssa.Slice:
+					if cfg.cutBreaks && isStringType(x.Type()) && (x.Low != nil || x.High != nil) && !raw {
+						raw = true
+						r := w(x.X, d+1)
+						raw = false
+						return r
+					}
 				case *ssa.Call:
 					if bi, ok := x.Common().Value.(*ssa.Builtin); ok && bi.Name() != "append" {
 						return false
@@ -831,7 +885,7 @@ func returnsParam(f *ssa.Function, prm *ssa.Parameter, cfg taintCfg, depth int) 
 						if strings.HasPrefix(fnPkgPath(g), modPath) {
 							n = anchorName(g)
 						}
-						if cfg.sanitizer != nil && cfg.sanitizer(n) {
+						if cfg.sanitizer != nil && cfg.sanitizer(n) && !raw {
 							return false
 						}
 					}
@@ -1177,4 +1231,291 @@ func reportR6(c *Ctx, fn *ssa.Function, in ssa.Instruction, where, src string) {
 	}
 	c.bad("C12.R6", fn, "transient string stored into "+where, in.Pos(),
 		"a string backed by the record's (pooled, recycled) buffer ("+src+") is kept in an object that outlives the record: after the buffer is reused the stored string silently changes")
+}
+
+// C12.R7: no record field aliases a long-lived scratch buffer. Every value stored into LogRecord.Fields (through
+// LogFieldLocator.Set or an indexed store) is walked backwards; if it can derive from StringFromBytes(b) where b is
+// (a slice of) a byte buffer held in a field of a long-lived object or in a global, the field of this record changes
+// when the buffer is reused for the next record. Buffers of the record itself (its pooled backing buffer, in-place
+// rewrites of its own field bytes) and fresh allocations are fine.
+func init() {
+	register("C12", "C12.R7", ruleC12R7)
+}
+
+// longLivedBytes: does the byte slice b (possibly re-sliced, appended to, passed through module functions that return
+// a parameter) come from a field of a non-record object owned by a parameter / captured variable / global?
+func longLivedBytes(b ssa.Value, cfg taintCfg) (string, bool) {
+	return longLivedBytesD(b, cfg, 0)
+}
+
+func longLivedBytesD(b ssa.Value, cfg taintCfg, pdepth int) (string, bool) {
+	seen := map[ssa.Value]bool{}
+	var walk func(v ssa.Value, d int) (string, bool)
+	walk = func(v ssa.Value, d int) (string, bool) {
+		if v == nil || seen[v] || d > 30 {
+			return "", false
+		}
+		seen[v] = true
+		switch x := v.(type) {
+		case *ssa.Slice:
+			return walk(x.X, d+1)
+		case *ssa.Phi:
+			for _, e := range x.Edges {
+				if s, ok := walk(e, d+1); ok {
+					return s, true
+				}
+			}
+		case *ssa.Convert:
+			return walk(x.X, d+1)
+		case *ssa.ChangeType:
+			return walk(x.X, d+1)
+		case *ssa.Extract:
+			return walk(x.Tuple, d+1)
+		case *ssa.Call:
+			if bi, ok := x.Common().Value.(*ssa.Builtin); ok {
+				if bi.Name() == "append" {
+					return walk(x.Common().Args[0], d+1)
+				}
+				return "", false
+			}
+			f := x.Common().StaticCallee()
+			if f == nil || f.Blocks == nil || !strings.HasPrefix(fnPkgPath(f), modPath) {
+				return "", false
+			}
+			for i, prm := range f.Params {
+				if i < len(x.Common().Args) && resultAliasesParam(f, prm, 0) {
+					if s, ok := walk(x.Common().Args[i], d+1); ok {
+						return s, true
+					}
+				}
+			}
+			// a module function handing out its own long-lived buffer
+			if d < 6 {
+				for _, rv := range returnedValues(f, 0) {
+					if isSeqType(rv.Val.Type()) {
+						if s, ok := walk(rv.Val, d+10); ok {
+							return s, true
+						}
+					}
+				}
+			}
+		case *ssa.Parameter:
+			// a buffer parameter: long-lived if some caller passes a long-lived buffer
+			if cfg.callersOf == nil || pdepth >= 3 {
+				return "", false
+			}
+			fn := x.Parent()
+			idx := -1
+			for i, q := range fn.Params {
+				if q == x {
+					idx = i
+				}
+			}
+			for _, site := range cfg.callersOf(fn) {
+				args := site.Common().Args
+				ai := idx - (len(fn.Params) - len(args))
+				if ai >= 0 && ai < len(args) {
+					if s, ok := longLivedBytesD(args[ai], cfg, pdepth+1); ok {
+						return s + " (passed by " + anchorName(site.Parent()) + ")", true
+					}
+				}
+			}
+		case *ssa.Global:
+			return "global " + x.Name(), true
+		case *ssa.Alloc:
+			for _, ref := range *x.Referrers() {
+				if st, ok := ref.(*ssa.Store); ok && st.Addr == ssa.Value(x) {
+					if s, ok := walk(st.Val, d+1); ok {
+						return s, true
+					}
+				}
+			}
+		case *ssa.UnOp:
+			if x.Op != token.MUL {
+				return "", false
+			}
+			switch a := x.X.(type) {
+			case *ssa.FieldAddr:
+				if typeName(a.X.Type()) == "base.LogRecord" {
+					return "", false
+				}
+				o := resolve(a.X)
+				for i := 0; i < 6; i++ {
+					switch y := o.(type) {
+					case *ssa.Parameter, *ssa.FreeVar, *ssa.Global:
+						return "field " + fieldName(a.X.Type(), a.Field), true
+					case *ssa.FieldAddr:
+						o = resolve(y.X)
+						continue
+					case *ssa.UnOp:
+						o = resolve(y.X)
+						continue
+					}
+					break
+				}
+			case *ssa.Global:
+				return "global " + a.Name(), true
+			default:
+				return walk(x.X, d+1)
+			}
+		}
+		return "", false
+	}
+	return walk(b, 0)
+}
+
+// resultAliasesParam: some result of f is the byte slice / string parameter prm itself, re-sliced, appended to, or passed
+// through another module function of that kind (memory identity, not content dependence)
+func resultAliasesParam(f *ssa.Function, prm *ssa.Parameter, depth int) bool {
+	if depth > 3 || !isSeqType(prm.Type()) {
+		return false
+	}
+	seen := map[ssa.Value]bool{}
+	var w func(v ssa.Value, d int) bool
+	w = func(v ssa.Value, d int) bool {
+		if v == nil || seen[v] || d > 25 {
+			return false
+		}
+		seen[v] = true
+		if v == ssa.Value(prm) {
+			return true
+		}
+		switch x := v.(type) {
+		case *ssa.Slice:
+			return w(x.X, d+1)
+		case *ssa.Phi:
+			for _, e := range x.Edges {
+				if w(e, d+1) {
+					return true
+				}
+			}
+		case *ssa.ChangeType:
+			return w(x.X, d+1)
+		case *ssa.Extract:
+			return w(x.Tuple, d+1)
+		case *ssa.Alloc:
+			for _, ref := range *x.Referrers() {
+				if st, ok := ref.(*ssa.Store); ok && st.Addr == ssa.Value(x) && w(st.Val, d+1) {
+					return true
+				}
+			}
+		case *ssa.UnOp:
+			if _, ok := x.X.(*ssa.Alloc); ok && x.Op == token.MUL {
+				return w(x.X, d+1)
+			}
+		case *ssa.Call:
+			if bi, ok := x.Common().Value.(*ssa.Builtin); ok {
+				return bi.Name() == "append" && w(x.Common().Args[0], d+1)
+			}
+			g := x.Common().StaticCallee()
+			if g == nil || g.Blocks == nil {
+				// unsafe string<->bytes helpers of the module are static; anything else does not alias
+				return false
+			}
+			if strings.HasPrefix(fnPkgPath(g), modPath) {
+				for i, q := range g.Params {
+					if i < len(x.Common().Args) && resultAliasesParam(g, q, depth+1) && w(x.Common().Args[i], d+1) {
+						return true
+					}
+				}
+			}
+		}
+		return false
+	}
+	found := false
+	eachInstr(f, func(in ssa.Instruction) {
+		if r, ok := in.(*ssa.Return); ok && !found {
+			for _, res := range r.Results {
+				if w(res, 0) {
+					found = true
+				}
+			}
+		}
+	})
+	return found
+}
+
+func ruleC12R7(c *Ctx) {
+	_, fns := c.runtimeSet()
+	callIdx := map[*ssa.Function][]ssa.CallInstruction{}
+	for _, fn := range c.P.universe {
+		for _, site := range callsIn(fn) {
+			for _, cal := range c.P.callees(site) {
+				callIdx[cal] = append(callIdx[cal], site)
+			}
+		}
+	}
+	cfg := taintCfg{
+		mode:          "scratch",
+		convertCopies: true,
+		callersOf:     func(fn *ssa.Function) []ssa.CallInstruction { return callIdx[fn] },
+		sanitizer: func(name string) bool {
+			switch name {
+			case "util.DeepCopyString", "util.DeepCopyStrings", "util.DeepCopyStringFromBytes", "strings.Clone", "fmt.Sprintf", "fmt.Sprint", "strings.Repeat":
+				return true
+			}
+			return false
+		},
+	}
+	cfg.sourceFn = func(call *ssa.Call, name string) (string, bool) {
+		if name != "util.StringFromBytes" || len(call.Common().Args) != 1 {
+			return "", false
+		}
+		if s, ok := longLivedBytes(call.Common().Args[0], cfg); ok {
+			return "StringFromBytes of " + s, true
+		}
+		return "", false
+	}
+	nSinks := 0
+	check := func(fn *ssa.Function, in ssa.Instruction, v ssa.Value) {
+		nSinks++
+		if t, src := taintWalk(v, cfg); t {
+			c.bad("C12.R7", fn, "record field aliases a long-lived buffer", in.Pos(),
+				"the value stored into the record ("+src+") is backed by a buffer that outlives the record and is reused: the field of this record changes when the next record is processed (records of one batch are alive together in the input stage)")
+		}
+	}
+	for _, fn := range fns {
+		eachInstr(fn, func(in ssa.Instruction) {
+			switch x := in.(type) {
+			case ssa.CallInstruction:
+				if f := x.Common().StaticCallee(); f != nil && isAnchor(f, aLocSet) && len(x.Common().Args) == 3 {
+					check(fn, in, x.Common().Args[2])
+				}
+			case *ssa.Store:
+				if ia, ok := strip(x.Addr).(*ssa.IndexAddr); ok && isStringType(x.Val.Type()) {
+					if fieldOf(ia.X) == "base.LogRecord.Fields" || typeName(ia.X.Type()) == "base.LogFields" {
+						check(fn, in, x.Val)
+					}
+				}
+			}
+		})
+	}
+	// the rule recognises aliasing conversions by the module's helper: no other file may reach for package unsafe
+	nUnsafe := 0
+	runtimePkgs := map[string]bool{}
+	for _, fn := range fns {
+		runtimePkgs[relPkg(fnPkgPath(fn))] = true
+	}
+	for rel, pkg := range c.P.pkgByRel {
+		if !runtimePkgs[rel] {
+			continue // packages with no per-record code (configuration loading, vendored YAML internals)
+		}
+		for _, file := range pkg.Syntax {
+			for _, imp := range file.Imports {
+				if imp.Path.Value != "\"unsafe\"" {
+					continue
+				}
+				nUnsafe++
+				fname := c.P.fset.Position(file.Pos()).Filename
+				ok := rel == "util" && strings.HasSuffix(fname, "/util/strings.go")
+				if !ok {
+					c.add("violated", "C12.R7", rel, "package unsafe is imported only by util/strings.go", imp.Pos(),
+						"this file imports unsafe: a string/byte-slice alias made here is invisible to the aliasing rules (C12.R3/R6/R7), which key on util.StringFromBytes / util.BytesFromString", true)
+				}
+			}
+		}
+	}
+	c.floor("C12.R7", "files importing unsafe", nUnsafe, 1)
+	c.floor("C12.R7", "stores into record fields in per-record code", nSinks, 8)
+	c.ok("C12.R7", nil, "no record field aliases a long-lived scratch buffer", 0, fmt.Sprintf("%d stores into record fields examined in %d per-record functions", nSinks, len(fns)))
 }
